@@ -137,8 +137,9 @@ def run(run, replay=None):
         style = fgen.Style(rng)
         if len(files) % 2 == 0:
             style.hdr_nl = b'\r\n'           # every other file has CRLF header lines
-        data, _i = fgen.build_file(rng.choice(paths), rng, style=style, texts=['plain text\n', 'two\nlines', 'é'],
-                                   diffs=[b'--- a\n+++ b\n', b'x\r\ny\r\n'])
+        data, _i = fgen.build_file(rng.choice(paths), rng, style=style, texts=['plain text\n', 'two\nlines', 'é', '  starts with blanks\n', '\nblank first line\n',
+                                          '\t\ttabs\n', ' \n \n'],
+                                   diffs=[b'--- a\n+++ b\n', b'x\r\ny\r\n', b' context first\n-x\n+y\n', b'\n', b'\t\n'])
         if len(data) < 900 and rdriver.read_bytes(data)[1] == 'done':
             files.append(data)
     nsafe = len(files)
